@@ -35,7 +35,7 @@ Tokens == { "match", "setvar", "capture", "deny1", "deny2", "deny3", "deny4",
             "ctlEngine", "ctlReqAccess", "ctlReqLimit", "ctlAuditEngine", "ctlAuditParts",
             "ctlForceReqBody", "ctlRespAccess", "ctlRmId", "ctlRmRange", "ctlRmTarget",
             "allow", "allowRequest", "skip", "skipAfter",
-            "spill", "respBody", "noLogging", "closeTwice", "keepReader", "tfCache" }
+            "spill", "respBody", "noLogging", "closeTwice", "keepReader", "tfCache", "otherArgs" }
 
 Always == {"variables", "lastPhase", "stopWatches", "matchedRules", "Capture"}   \* any transaction that runs its phases
 Dirties(tok) ==
@@ -58,6 +58,7 @@ Dirties(tok) ==
     [] tok = "skipAfter"      -> {"SkipAfter", "matchedRules", "audit"}
     [] tok = "spill"          -> {"requestBodyBuffer", "variables"}
     [] tok = "respBody"       -> {"responseBodyBuffer", "variables"}
+    [] tok = "otherArgs"      -> {"variables"}     \* argument names the next transaction does not use
     [] tok = "keepReader"     -> {"requestBodyBuffer"}
     [] tok = "tfCache"        -> {"transformationCache", "matchedRules", "audit"}
     [] OTHER                  -> {}     \* noLogging, closeTwice: behaviours of the driver
